@@ -8,7 +8,7 @@ export CARGO_TARGET_DIR=$WT/target CARGO_NET_OFFLINE=true
 cd $WT || exit 2
 LOG=$WT/seed/confirm.log; : > $LOG
 run_demo() {
-  if [ -f seed/demo.sh ]; then sh seed/demo.sh >>$LOG 2>&1; return $?; fi
+  if [ -f seed/demo.sh ]; then bash seed/demo.sh >>$LOG 2>&1; return $?; fi
   if [ -f seed/demo_test.rs ]; then mkdir -p tests; cp seed/demo_test.rs tests/seed_demo.rs
      cargo test --offline --test seed_demo >>$LOG 2>&1; rc=$?; rm -f tests/seed_demo.rs; rmdir tests 2>/dev/null; return $rc; fi
   echo "no demo" >>$LOG; return 99
